@@ -177,6 +177,13 @@ class _Stack:
     ):
       self.consts[id(c.op)] = c
 
+  def top_is_map(self):
+    return bool(self.stack and self.stack[-1] and self.stack[-1].typ[0] == 'map')
+
+  def replace_top_with_nonconstant(self):
+    self._preserve_constant(self.stack[-1])
+    self.stack[-1] = None
+
   def clear(self):
     # Preserve any constants in the stack before clearing it.
     for c in self.stack:
@@ -330,6 +337,9 @@ class _FoldConstants(pyc.CodeVisitor):
             elements = lst.elements + (element,)
             stack.push(_Constant(typ, value, elements, op))
         elif isinstance(op, opcodes.LIST_EXTEND):
+          if stack.top_is_map():
+            # [*{...}] extends the list with the dict's keys; we don't fold that.
+            stack.replace_top_with_nonconstant()
           elements = stack.fold_args(2, op)
           if elements:
             lst, other = elements.elements
